@@ -33,7 +33,9 @@ FC = "src/zorg/service/compiler/_file_compiler.py"
 MUTANTS = [
     # ---------------------------------------------------------------- C05
     ("m05_drop_priority_on_writeback", "C05", H, '    return f"{spaces}{symbol} {priority}"\n', '    return f"{spaces}{symbol} "\n'),
-    ("m05_keep_long_date_in_index_body", "C05", R, "            if zdt.is_long_date_spec(old_body.split(\" \")[0]):\n", "            if False and zdt.is_long_date_spec(old_body.split(\" \")[0]):\n"),
+    ("m05_keep_long_date_in_index_body", "C05", R, "            if zdt.is_long_date_spec(words[0]):\n", "            if False and zdt.is_long_date_spec(words[0]):\n"),
+    ("m05_index_body_collapses_spaces", "C05", R, '            words = first_line.split(" ")\n', "            words = first_line.split()\n"),
+    ("m05_writeback_normalises_crlf", "C05", H, "    zlines = c.read_text_as_is(zo_path).split(\"\\n\")\n", "    zlines = zo_path.read_text().split(\"\\n\")\n"),
     ("m05_zid_after_first_word", "C05", H, "    if not words:\n        return f\"{line_before_zid}{zid}\"\n    return f\"{line_before_zid}{zid} {' '.join(words)}\"\n", "    if not words:\n        return f\"{line_before_zid}{zid}\"\n    return f\"{line_before_zid}{words[0]} {zid} {' '.join(words[1:])}\".rstrip()\n"),
     ("m05_writeback_uses_stale_line_numbers", "C05", H, "        start_idx = note.line_no - 1\n        end_idx = note.line_no + len(note.body.split(\"\\n\")) - 1\n", "        start_idx = note.line_no - 1 + (1 if len(notes_to_update) > 2 and note is notes_to_update[-1] else 0)\n        end_idx = start_idx + len(note.body.split(\"\\n\"))\n"),
     # ---------------------------------------------------------------- C06
@@ -42,12 +44,14 @@ MUTANTS = [
     ("m06_deleted_pages_only_if_in_hash_map", "C06", H, "        for zorg_page_name in session.repo.get_file_names():\n            if zorg_page_name not in file_to_hash:\n", "        for zorg_page_name in old_file_to_hash:\n            if zorg_page_name not in file_to_hash:\n"),
     ("m06_writeback_refreshes_all_hashes", "C06", H, "    file_to_hash[c.strip_zdir(zdir, zo_path)] = _hash_file(zo_path)\n", "    file_to_hash = _get_file_hash_map(zdir)\n"),
     ("m06_keep_orphan_tags", "C06", R, "                        if len(tag.notes) == 1:\n", "                        if len(tag.notes) == 0:\n"),
+    ("m06_merge_old_hash_map", "C06", H, "    _write_file_hash_to_disk(file_hash_path, file_to_hash)\n    c.atomic_write_text(\n        error_file_whitelist, \"\\n\".join(sorted(error_files))\n    )\n    session.commit()\n\n\ndef reindex_database_after_edit(", "    _write_file_hash_to_disk(file_hash_path, {**old_file_to_hash, **file_to_hash})\n    c.atomic_write_text(\n        error_file_whitelist, \"\\n\".join(sorted(error_files))\n    )\n    session.commit()\n\n\ndef reindex_database_after_edit("),
     # ---------------------------------------------------------------- C07
     ("m07_no_persist", "C07", Z, "        self._write_to_disk(next_id_map)\n", "        if len(next_id_map) > 1:\n            self._write_to_disk(next_id_map)\n"),
     ("m07_do_not_skip_l", "C07", Z, '    "l",\n', ""),
     ("m07_extension_starts_at_00", "C07", Z, '        return "000"\n', '        return "00"\n'),
     ("m07_is_zid_len9_only", "C07", D, "        len(zid) in (9, 10) and", "        len(zid) == 9 and"),
     ("m07_successor_of_Z_is_b", "C07", Z, '            next_ch = "a"\n', '            next_ch = "b"\n'),
+    ("m07_prune_older_dates", "C07", Z, "        # pylint: disable=unsupported-assignment-operation\n", "        if date_part not in next_id_map:\n            next_id_map = {k: v for k, v in next_id_map.items() if k > date_part}\n        # pylint: disable=unsupported-assignment-operation\n"),
     # ---------------------------------------------------------------- C08
     ("m08_reindex_accepts_broken_page", "C08", H, "                raise RuntimeError(f\"Zorg file has errors!: {zorg_page.path}\")\n", "                error_files.append(zorg_page_path_str)\n"),
     ("m08_fixed_page_stays_whitelisted", "C08", H, "                error_files.remove(zorg_page_path_str)\n", "                pass\n"),
